@@ -1,6 +1,7 @@
 import AtreeProofs.Props.C11
 import AtreeProofs.Props.C10WPopOps
 import AtreeProofs.World.C11Aux
+import AtreeProofs.World.C11Root
 import AtreeProofs.World.C11Scenario
 /-
   C11 — Detached containers and stale handles cannot corrupt a former parent: the WHOLE-OPERATION
@@ -393,6 +394,96 @@ theorem detachedRoot_setType (D : SlabID → DigestFn 4) (w : World) (p : SlabID
     refine hx.of_frame hS (by rw [hc']; rfl) (fun c'' hc'' hm => ?_)
     rw [hc'] at hc''; cases hc''
     exact hx.2 x ⟨c, hc, by rw [← Cont.sig_pays hsx]; exact hm⟩
+
+/-! ### 6. A mutation through the handle of a detached root writes nothing but the container itself
+
+Audit S4: the whole-operation statement ("no other container, closure or index table changes")
+existed for `Array.Insert` of a plain value only (`C10W.kept_child_arrInsert`).  Here: `Array.Remove`,
+`Array.Set`, `OrderedMap.Set`, `OrderedMap.Remove`, `SetType` through the handle of a detached root
+`x`, in a world that satisfies the invariant (`WorldOkKept D K` ⊇ `WorldOk'`; `x` may be a kept popped
+child).  Conclusion shape: the container-level operation on `x` (`Arr.remove`, …) that was
+performed; every entry of the container table, of the closure table and of the index tables other
+than those of `x` — and of the child `y` of `x` that is handed back, which is un-inlined, never
+the former parent — is the SAME (so the former parent keeps content, sizes and form); the storage
+effects are those of the container-level operation on `x`, plus `store y` if `y` was inlined:
+the notification contributes nothing. -/
+
+/-- `Array.Remove` through the handle of a detached root -/
+theorem detached_arrRemove_writes_only_self (D : SlabID → DigestFn 4) (K : SlabID → Prop) (w : World) (x : SlabID)
+    (i : Nat) (cx : Ctx) (old : Elem) (w' : World) (cx' : Ctx)
+    (H : WorldOkKept D K w cx.ctr) (hx : DetachedRoot w x) (h : w.arrRemove x i cx = .ok (old, w', cx')) :
+    ∃ a a' old1 cx1 ov, w.cont? x = some (.arr a) ∧ a.remove w.T i cx = .ok (old1, a', cx1) ∧
+      a.toList[i]? = some old1 ∧ a'.toList = a.toList.eraseIdx i ∧ old.pay = old1.pay ∧
+      (∀ y, ov = some y → old1.pay = .ref y) ∧
+      (cx' = cx1 ∨ ∃ y, ov = some y ∧ cx' = cx1.emit (.store y)) ∧
+      (∀ z, z ≠ x → some z ≠ ov → w'.cont? z = w.cont? z ∧ AList.find? w'.hinfo z = AList.find? w.hinfo z ∧
+        AList.find? w'.mutIdx z = AList.find? w.mutIdx z) := by
+  obtain ⟨rank, H0⟩ := H
+  exact root_arrRemove H0 hx h
+
+/-- `Array.Set` of a plain value through the handle of a detached root -/
+theorem detached_arrSet_writes_only_self (D : SlabID → DigestFn 4) (K : SlabID → Prop) (w : World) (x : SlabID)
+    (i : Nat) (e : Elem) (cx : Ctx) (old : Elem) (w' : World) (cx' : Ctx)
+    (H : WorldOkKept D K w cx.ctr) (hx : DetachedRoot w x) (hv : ValueOk e ∧ e.size ≤ maxInlineArr w.T)
+    (h : w.arrSet x i (.plain e) cx = .ok (old, w', cx')) :
+    ∃ a a' old1 cx1 ov, w.cont? x = some (.arr a) ∧ a.set w.T i e cx = .ok (old1, a', cx1) ∧
+      a.toList[i]? = some old1 ∧ a'.toList = a.toList.set i e ∧ old.pay = old1.pay ∧
+      (∀ y, ov = some y → old1.pay = .ref y) ∧
+      (cx' = cx1 ∨ ∃ y, ov = some y ∧ cx' = cx1.emit (.store y)) ∧
+      (∀ z, z ≠ x → some z ≠ ov → w'.cont? z = w.cont? z ∧ AList.find? w'.hinfo z = AList.find? w.hinfo z ∧
+        AList.find? w'.mutIdx z = AList.find? w.mutIdx z) := by
+  obtain ⟨rank, H0⟩ := H
+  exact root_arrSet_plain H0 hx ⟨hv.1.1, hv.2⟩ h
+
+/-- `OrderedMap.Remove` through the handle of a detached root.  `hself`: the closure of `x` does not
+    name `x` itself (closures are installed by the holder of a child, so this holds in every run;
+    it is not a clause of the invariant — same hypothesis as `C10W.kept_child_mapSet_frame`). -/
+theorem detached_mapRemove_writes_only_self (D : SlabID → DigestFn 4) (K : SlabID → Prop) (w : World) (x : SlabID)
+    (k : MKey) (cx : Ctx) (rk : MKey) (rv : Elem) (w' : World) (cx' : Ctx) (ctr : Nat)
+    (H : WorldOkKept D K w ctr) (hx : DetachedRoot w x)
+    (hself : ∀ hi, AList.find? w.hinfo x = some hi → hi.parent ≠ x)
+    (h : w.mapRemove x k cx = .ok (rk, rv, w', cx')) :
+    ∃ m m' rv1 cx1 ov, w.cont? x = some (.map m) ∧ m.remove w.mcfg k cx = .ok (rk, rv1, m', cx1) ∧
+      rv.pay = rv1.pay ∧ (∀ y, ov = some y → rv1.pay = .ref y) ∧
+      (cx' = cx1 ∨ ∃ y, ov = some y ∧ cx' = cx1.emit (.store y)) ∧
+      (∀ z, z ≠ x → some z ≠ ov → w'.cont? z = w.cont? z ∧ AList.find? w'.hinfo z = AList.find? w.hinfo z ∧
+        AList.find? w'.mutIdx z = AList.find? w.mutIdx z) := by
+  obtain ⟨rank, H0⟩ := H
+  exact root_mapRemove H0 hx hself h
+
+/-- `OrderedMap.Set` of a plain value through the handle of a detached root -/
+theorem detached_mapSet_writes_only_self (D : SlabID → DigestFn 4) (K : SlabID → Prop) (w : World) (x : SlabID)
+    (k : MKey) (e : Elem) (cx : Ctx) (old : Option Elem) (w' : World) (cx' : Ctx) (ctr : Nat)
+    (H : WorldOkKept D K w ctr) (hx : DetachedRoot w x)
+    (hself : ∀ hi, AList.find? w.hinfo x = some hi → hi.parent ≠ x)
+    (h : w.mapSet x k (.plain e) cx = .ok (old, w', cx')) :
+    ∃ m m' old1 cx1 ov, w.cont? x = some (.map m) ∧ m.set w.mcfg k e cx = .ok (old1, m', cx1) ∧
+      old.map (·.pay) = old1.map (·.pay) ∧ (∀ y, ov = some y → ∃ o, old1 = some o ∧ o.pay = .ref y) ∧
+      (cx' = cx1 ∨ ∃ y, ov = some y ∧ cx' = cx1.emit (.store y)) ∧
+      (∀ z, z ≠ x → some z ≠ ov → w'.cont? z = w.cont? z ∧ AList.find? w'.hinfo z = AList.find? w.hinfo z ∧
+        AList.find? w'.mutIdx z = AList.find? w.mutIdx z) := by
+  obtain ⟨rank, H0⟩ := H
+  exact root_mapSet_plain H0 hx hself h
+
+/-- `SetType` through the handle of a detached root (under `WorldOk'` a detached root is
+    standalone): only the type field of `x` changes, the one storage effect is `store x`, no other
+    container, closure or index table changes. -/
+theorem detached_setType_writes_only_self (D : SlabID → DigestFn 4) (w : World) (x : SlabID) (ty : Nat) (cx : Ctx)
+    (w' : World) (cx' : Ctx) (ctr : Nat) (H : WorldOk' D w ctr) (hx : DetachedRoot w x)
+    (h : w.setType x ty cx = .ok (w', cx')) :
+    ∃ c c', w.cont? x = some c ∧ w' = w.setCont x c' ∧ c'.storedElems = c.storedElems ∧ c'.vid = c.vid ∧
+      c'.isInlined = false ∧ cx' = cx.emit (.store x) ∧
+      (∀ z, z ≠ x → w'.cont? z = w.cont? z) ∧ w'.hinfo = w.hinfo ∧ w'.mutIdx = w.mutIdx := by
+  obtain ⟨c, hc⟩ := Option.isSome_iff_exists.mp hx.1
+  have hst : c.isInlined = false := by
+    cases hi : c.isInlined with
+    | false => rfl
+    | true =>
+      obtain ⟨⟨p, hp⟩, _⟩ := C10W.worldOk'_inlined_referenced_once H x c hc hi
+      exact absurd hp (hx.2 p)
+  obtain ⟨⟨c', h1, h2, h3, h4⟩, h5, h6, h7, h8⟩ := root_setType hc hst h
+  have hvid : c.vid = x := (C10W.worldOk'_contOk H x c hc).2
+  exact ⟨c, c', hc, h1, h2, h3, h4, by rw [h5, hvid], h6, h7, h8⟩
 
 /-! ### Non-vacuity, run A (`AtreeProofs/World/C11Scenario.lean`, T = 256)
 
